@@ -22,8 +22,8 @@ pub fn def() -> PropDef {
 fn plan(tier: Tier) -> Vec<Unit> {
     match tier {
         Tier::Quick => {
-            let mut v = crate::util::split_budget("convert", 200_000, 4_000);
-            v.extend(crate::util::split_budget("construct", 8_000, 500));
+            let mut v = crate::util::split_budget("convert", 1_000_000, 10_000);
+            v.extend(crate::util::split_budget("construct", 40_000, 1_000));
             v
         }
         Tier::Thorough => {
@@ -66,8 +66,8 @@ fn gen_value(r: &mut Rng) -> Dec {
         4 => {
             // negative-scale representation k * 10^j that lands near / past a limit
             let l = r.pick(&lim).clone();
-            let j = r.range(1, 12);
-            let k = &l / pow10(j as u64) + r.range(-1, 1);
+            let j = r.range(1, 40);
+            let k = if r.bool() { &l / pow10(j as u64) + r.range(-1, 1) } else { BigInt::from(r.range(-20, 20)) };
             Dec::new(k, -j)
         }
         5 => {
